@@ -739,6 +739,19 @@ def _primitives(c, prog):
         er = err_returns(prog.fns[pth].body)
         c.inst("R7.encoder-infallible", pth.split(" as ")[0].lstrip("<")[:90], not er, "explicit error returns %s" % [str(e[1])[:80] for e in er[:2]], prog.fns[pth].where(), pth)
     c.floor("R7.encoder-infallible", 50)
+    # the generic slice encoder: byte slices through the with-size helper, everything else as compact size of the element count
+    # followed by every element; nothing else is written and the count has no second form
+    fsl = prog.fn("<[T] as encode::Encodable>::consensus_encode")
+    evs = []
+    for e in events(fsl.body, lambda t: is_encode_call(t) or re.search(r"consensus_encode_with_size$|emit_\w+$|write_all$", callee_name(t)) is not None):
+        cds = [("TypeId==u8" if "TypeId" in d else d, l) for d, l in cond_desc(fsl.body, e["conds"])]
+        evs.append((callee_name(e["t"]).split("::")[-1] if "with_size" in callee_name(e["t"]) or "emit_" in callee_name(e["t"]) else (e.get("self_ty") or "?"),
+                    show(e["args"][0], -12)[:60], cds))
+    want_sl = [("consensus_encode_with_size", evs[0][1] if evs else "", [("TypeId==u8", "true")]),
+               ("encode::VarInt", "encode::VarInt::VarInt{(core::slice::len(arg1) as u64)}", [("TypeId==u8", "false")]),
+               ("T", "elem(arg1)", [("TypeId==u8", "false"), ("discr(next(arg1))", "Some")])]
+    c.inst("R7.slice-encoder", "[T]: bytes via the with-size helper; otherwise VarInt(len) then each element", evs == want_sl and "from_raw_parts" in (evs[0][1] if evs else ""),
+           "events %s" % evs, fsl.where(), fsl.path)
     # encoders that are "the bytes with their length": exactly one unconditional call of the helper on the whole byte view
     WS = {"<bitcoin::ScriptBuf as encode::Encodable>::consensus_encode": "bitcoin::Script::as_bytes(bitcoin::ScriptBuf::as_script(arg1))",
           "<sighash::Annex<'_> as encode::Encodable>::consensus_encode": "arg1.0"}
